@@ -321,8 +321,15 @@ func tokenizeForSemantics(content string) []semanticToken {
 		}
 
 		length := uint32(lsputil.UTF16Len(tok.Value))
-		if tok.Type == parser.TokenComment {
+		switch tok.Type {
+		case parser.TokenComment:
 			length++
+		case parser.TokenCode, parser.TokenCommodity:
+			// The value of a code is the text inside its parentheses and the value of a quoted
+			// commodity the text inside its quotes: the token covers the whole lexeme.
+			if tok.End.Line == tok.Pos.Line && tok.End.Column > tok.Pos.Column {
+				length = uint32(tok.End.Column - tok.Pos.Column)
+			}
 		}
 		if length == 0 {
 			// e.g. a text token that is blank after trimming (the CR of a CRLF line end)
